@@ -586,9 +586,19 @@ func (ts *TunnelSet) CheckComplete() {
 		// with a destination that closes first the client's tail may be cut
 		// (the bytes that did arrive must still be the right prefix).
 		if t.ServerClose == "after-eof" {
-			// the destination reads until EOF/close: wait for it
-			for w := 0; w < 100 && !t.serverDone; w++ {
+			// the destination reads until EOF/close: wait for it, for as long as
+			// bytes keep arriving (an exit that is kept off the CPU works through
+			// megabytes of frames slowly; no statement bounds that time) and for a
+			// minute after the last one
+			last, lastAt, began := t.serverGot, simrt.Elapsed(), simrt.Elapsed()
+			for !t.serverDone && simrt.Elapsed()-lastAt < time.Minute && simrt.Elapsed()-began < 30*time.Minute {
 				simrt.Sleep(200 * time.Millisecond)
+				if t.serverGot != last {
+					last, lastAt = t.serverGot, simrt.Elapsed()
+				}
+			}
+			if simrt.Elapsed()-began > 20*time.Second {
+				simrt.Probe("destination_still_receiving_20s_after_the_client_finished")
 			}
 			if t.serverGot != t.Up {
 				ts.fail(t, "tunnel-bytes-missing", "destination did not receive everything the client sent", fmt.Sprintf("got %d of %d (eof=%v err=%v)", t.serverGot, t.Up, t.serverEOF, t.serverErr))
